@@ -10,6 +10,7 @@ import (
 	"lunar/engine/utils/environment"
 	context_manager "lunar/toolkit-core/context-manager"
 	"lunar/toolkit-core/interfaces"
+	"lunar/toolkit-core/verifhook"
 	"strconv"
 	"strings"
 	"sync"
@@ -355,6 +356,7 @@ func (cs *concurrentStrategy) runGC() {
 
 		case <-clock.After(cs.gcInterval):
 			cs.checkForExpiredRequests()
+			verifhook.Point("cq.gc.done", "quota", cs.quotaID)
 		}
 	}
 }
